@@ -32,6 +32,11 @@ Profiles == <<
 XProfiles == <<
     [name |-> <<97>>, fkind |-> 2, fname |-> <<233, 8364, 128512>>,      ctype |-> NONE, hv |-> 0],
     [name |-> <<97>>, fkind |-> 2, fname |-> <<97, 46, 116, 120, 116>>,  ctype |-> NONE, hv |-> 0] >>
+(* names / file names with escaped quotes, backslashes and semicolons:  q";b\c  and  say "hi";x.txt ,  \";  *)
+QProfiles == <<
+    [name |-> <<113, 34, 59, 98, 92, 99>>, fkind |-> 1,
+     fname |-> <<115, 97, 121, 32, 34, 104, 105, 34, 59, 120, 46, 116, 120, 116>>, ctype |-> NONE, hv |-> 0],
+    [name |-> <<92, 34, 59>>, fkind |-> 0, fname |-> <<>>, ctype |-> T_PLAIN, hv |-> 1] >>
 (* charset labels one edit away from "UTF-8" (edit bytes - X 2 A b): the ones CPython's codec registry
    resolves to UTF-8; every other label of that neighbourhood made of word characters and dashes is unknown
    to it (table computed once with codecs.lookup, part of the trusted base) *)
@@ -43,9 +48,11 @@ JProfile == [name |-> <<106>>, fkind |-> 0, fname |-> <<>>, ctype |-> T_JSON, hv
 MkPart(pr, c) == [name |-> pr.name, fkind |-> pr.fkind, fname |-> pr.fname, ctype |-> pr.ctype, hv |-> pr.hv, content |-> c]
 MCPartPool == {MkPart(Profiles[i], Contents[j]) : i \in ProfileSel \cap 1..4, j \in ContentSel}
               \cup {MkPart(XProfiles[i - 4], Contents[j]) : i \in ProfileSel \cap 5..6, j \in ContentSel}
+              \cup {MkPart(QProfiles[i - 6], Contents[j]) : i \in ProfileSel \cap 7..8, j \in ContentSel}
               \cup (IF UseJson THEN {MkPart(JProfile, J1), MkPart(JProfile, J2)} ELSE {})
 
-Boundaries == << <<98>>, <<98, 81>>, B70 >>
+B70S == <<32, 32>> \o SubSeq(B70, 3, 70)          \* 70 characters, the first two are spaces
+Boundaries == << <<98>>, <<98, 81>>, B70, <<32, 98>>, B70S, <<39, 40, 41, 43, 95, 45, 46, 47, 58, 61, 63, 32, 98>> >>     \* '()+_-./:=? b  (the comma: see checks/c13.py)
 Pres == << <<>>, <<112>>, DASH2 >>
 Epis == << <<>>, <<101>>, CRLF \o DASH2 \o <<98>> \o CRLF \o <<120>> >>
 MCEnvPool == {[b |-> Boundaries[i], pre |-> Pres[j], epi |-> Epis[k], fin |-> f] :
